@@ -37,7 +37,7 @@ def run(ctx):
     for b in cm.audit(cm.coq_sources() + [os.path.join(cm.ROOT, 'props', 'C13.v')]): ctx.broken.append('audit: ' + b)
     cm.prove(ctx, 'C13.v')
     try:
-        import numpy as np, quaternion, utils, solver
+        import numpy as np, quaternion, utils, solver, importlib
     except Exception as e:
         ctx.broken.append(f'implementation does not import: {e!r}'); return cm.finish(ctx, 'proof', '', ASSUME)
     warnings.simplefilter('ignore')
@@ -55,6 +55,25 @@ def run(ctx):
         A, _, _ = spectral_problem(rng, m, n, sv); return qx.to_np(A), A
     shapes = [(2, 2), (3, 2), (4, 3), (3, 3), (5, 2), (1, 1)] + ([] if ctx.quick() else [(6, 4), (5, 5), (4, 1)])
     cterms = []
+    # ---- CGNE, long runs (50 .. 300 iterations): whatever happens periodically inside the loop, the last reported residual is the
+    # residual of the returned X, the history does not increase, the flag is sound and the budget suffices
+    qsvd_full = importlib.import_module('decomp.qsvd').classical_qsvd_full
+    for (m, n, cond) in ([(48, 36, 30), (40, 40, 60)] if ctx.quick() else [(48, 36, 30), (40, 40, 60), (60, 40, 100), (64, 48, 300), (37, 35, 1000)]):
+        Gq = quaternion.as_quat_array(rs.standard_normal((m, n, 4)))
+        Uq, _, Vq = qsvd_full(Gq)
+        sv = np.geomspace(1.0, 1.0 / cond, n)
+        Al = utils.quat_matmat(Uq[:, :n] * sv, utils.quat_hermitian(Vq))
+        for tol in (1e-6,) if ctx.quick() else (1e-4, 1e-6, 1e-8):
+            inp = {'class': 'long-run', 'shape': [m, n], 'cond': cond, 'tol': tol, 'generator': f'RandomState({7 + ctx.seed}) Gaussian, singular values geomspace(1, 1/cond)'}
+            try: Xl, il = solver.CGNEQSolver(tol=tol, max_iter=2000).compute(Al)
+            except Exception as e: viol('C13:cgne:raises:long-run', f'CGNE raised {e!r}', inp); continue
+            hl = [float(v) for v in il['residual_norms']]; trl = true_res(Xl, Al, n)
+            if not cm.all_finite(Xl, hl): viol('C13:cgne:nonfinite:long-run', 'CGNE returned NaN / inf', inp); continue
+            if hl and abs(hl[-1] - trl) > 1e-3 * trl + 1e-11: viol('C13:cgne:history:long-run', f'last CGNE residual {hl[-1]:.3e} is not the residual {trl:.3e} of the returned X after {len(hl)} iterations', inp, hl[-1], trl)
+            if any(hl[i + 1] > hl[i] * (1 + 1e-7) + 1e-13 for i in range(len(hl) - 1)): viol('C13:cgne:monotone:long-run', 'CGNE residuals increase', inp)
+            if il['converged'] and trl > tol * (1 + 1e-3) + 1e-11: viol('C13:cgne:flag:long-run', f'CGNE reports converged with true residual {trl:.3e} > tol {tol}', inp, trl, tol)
+            if not il['converged']: viol('C13:cgne:budget:long-run', f'CGNE does not reach tol {tol} on a {m}x{n} matrix of condition {cond} within 2000 iterations (true residual {trl:.3e})', inp, trl)
+            ctx.count(('cgne-long', m, n, cond, tol, len(hl)), True)
     # ---- CGNE: exact trajectory correspondence + soundness of the flag ------------------------------------
     for (m, n) in shapes:
         for cond in ([3] if ctx.quick() else [2, 10, 100]):
